@@ -58,7 +58,15 @@ where
         let store = Vec::from(bytes);
         // add data to entries
         for entry in &mut entries {
-            let mut remaining = &bytes[entry.offset as usize..];
+            let mut remaining = usize::try_from(entry.offset)
+                .ok()
+                .and_then(|offset| bytes.get(offset..))
+                .ok_or_else(|| {
+                    Error::Nom(format!(
+                        "Offset {} of tag {} is outside of the data section",
+                        entry.offset, entry.tag
+                    ))
+                })?;
 
             match &mut entry.data {
                 IndexData::Null => {}
